@@ -385,6 +385,13 @@ pub fn check(case: &GlmCase, obs: &mut Obs) {
             );
             return;
         }
+        Err(e @ (LinearError::InvalidPenalty(_) | LinearError::InvalidTweediePower(_) | LinearError::NotEnoughSamples | LinearError::NotEnoughTargets)) => {
+            obs.fail(
+                "glm:fit-refuses-valid-configuration",
+                format!("fit returned the error '{e}' for power {}, link {:?}, alpha {alpha}, n = {} finite samples inside the support", d.power, d.link, d.y.len()),
+            );
+            return;
+        }
         Err(_) => {
             obs.class("glm_fit_err");
             obs.class_if(d.power == 1.0, "glm_fit_err_poisson");
